@@ -14,6 +14,8 @@ VARIABLES l, docs, nfail
 tvars == <<l, docs, nfail>>
 
 Fail(e, what, exp, got) == PrintT(<<"FAIL", {"C14"}, e.tr, e.i, e.mode, e.op.op, what, exp, got>>)
+Fail2(props, e, what, exp, got) == PrintT(<<"FAIL", props, e.tr, e.i, e.mode, e.op.op, what, exp, got>>)
+F2(ok, props, e, what, exp, got) == IF ok THEN 0 ELSE IF Fail2(props, e, what, exp, got) THEN 1 ELSE 1
 F(ok, e, what, exp, got) == IF ok THEN 0 ELSE IF Fail(e, what, exp, got) THEN 1 ELSE 1
 SumOver(X, f(_)) == FoldSet(LAMBDA x, acc : acc + f(x), 0, X)
 ObsOf(e, c, k) == e.docs[CHOOSE i \in 1..Len(e.docs) : e.docs[i].c = c /\ e.docs[i].key = k]
@@ -48,10 +50,13 @@ Timeline(e) ==
     LET f(c, k) ==
           LET d == docs[c][k]
               ft == FateOf(e, c, k) IN
+          \* did the same key expire in another collection at that time? then it is also an isolation failure (C11)
+          LET cross == \E c2 \in EColls \ {c} : docs[c2][k].dl > 0 /\ ft.goneat >= docs[c2][k].dl
+              pr == IF cross THEN {"C14", "C11"} ELSE {"C14"} IN
           IF ~d.live THEN 0
           ELSE IF d.dl = 0
-          THEN F(ft.goneat = -1, e, <<"never-expiring-document-gone", c, k>>, -1, ft.goneat)
-          ELSE F(ft.goneat = -1 \/ ft.goneat >= d.dl, e, <<"gone-before-deadline", c, k>>, d.dl, ft.goneat)
+          THEN F2(ft.goneat = -1, pr, e, <<"never-expiring-document-gone", c, k>>, -1, ft.goneat)
+          ELSE F2(ft.goneat = -1 \/ ft.goneat >= d.dl, pr, e, <<"gone-before-deadline", c, k>>, d.dl, ft.goneat)
                + F(ft.goneat # -1 /\ ft.goneat <= d.dl + Slack, e, <<"not-expired-in-time", c, k>>, d.dl, <<ft.goneat, ft.watched>>)
                + F(ft.delevat # -1 /\ ft.delevat <= d.dl + Slack, e, <<"no-deletion-event", c, k>>, d.dl, ft.delevat)
     IN
